@@ -95,8 +95,9 @@ pub fn main_campaign() -> SimCampaign {
     }
 }
 
-/// Known finding R5: witness 1 connects into the slab slot an adversary's finished connection
-/// had, then that connection's late Disconnect / Ready signal arrives
+/// R5 (repaired in /repo): witness 1 connects into the slab slot an adversary's finished
+/// connection had, then that connection's late Disconnect / Ready signal arrives (it used to
+/// act on the witness). Kept as a focused campaign.
 fn recycled_shape(h: Hist) -> Hist {
     let mut h = witness_shape(h);
     if h.clients.len() < 3 {
@@ -134,8 +135,8 @@ pub fn probe_r5() -> SimCampaign {
             avoid: avoid_all(),
             ..Flags::default()
         },
-        quick: 300,
-        thorough: 3000,
+        quick: 3000,
+        thorough: 60000,
         nontrivial: |s, _| if s.stale_events > 0 { Some("recycled".into()) } else { None },
         probes: vec!["conn:closed_by_broker_without_cause"],
         shape: Some(recycled_shape),
@@ -217,7 +218,7 @@ pub fn plan(_tier: Tier) -> Plan {
         enumerators: vec![],
         rule: "Histories with a witness pair (clients 0 and 1: connected first, never misbehaving, draining and acknowledging in order, publishing and subscribing on the same topics as everybody else) and 1-3 adversaries drawing from the C03 alphabet: protocol violations, unsolicited acks, abrupt link failures, reconnect storms and takeovers under their own ids, never draining / never acknowledging, stale and forged router events, late events of their finished connections before or after another adversary reuses the slab slot. Oracle: the C01 delivery clauses, the C06 ack clauses and the C09 window clauses restricted to the witnesses, exact at every drain and complete at every idle point; both witness connections stay registered (checked after every router turn); slab alignment. Second campaign (late_witness): adversaries also hold shared subscriptions and reconnect more often, witness 1 connects only after a third of the history, into a slab slot and next to filter logs that finished connections have used (late signals of those connections are R5's region and are left out there). Adversaries' valid publishes are part of the reference model (they must be delivered to the witnesses), their connection state follows the router when the model cannot predict it. Non-trivial: >=1 adversary connection closed by the broker or >=1 stale event, while the witnesses received forwards. Fourth campaign, the same through the real connection tasks: ".to_string() + crate::fullstack::isolation::ISOLATION_RULE,
         assumptions: vec![
-            "Known finding R5 (connection ids are recycled slab keys: a late Disconnect/Ready of a finished connection acts on the new occupant of the slot) is kept out of the main campaign by construction: the witnesses connect first and never reconnect, so their slots are never recycled; it is probed separately".into(),
+            "R5 (connection ids are recycled slab keys: a late Disconnect/Ready of a finished connection acted on the new occupant of the slot) was repaired in /repo; in the main campaign the witnesses still connect first, the focused campaign probe_r5_recycled_slot and late_witness let witness 1 connect into a used slot".into(),
             "e5_isolation: an adversary's valid QoS 0/1 publish on a witness topic is accepted, behind everything accepted before, when the PINGRESP that closes it (or its PUBACK) has been read; if the adversary's connection ends before that, the publish may be delivered at that place or not at all. Adversaries' QoS 2 publishes (rumqttd releases the oldest recorded one on any PUBREL of the connection, whatever its packet id), wills and malformed topic names (rumqttd does not validate PUBLISH topic names) stay outside the witnesses' filters".into(),
         ],
         min_nontrivial: 200,
